@@ -293,13 +293,16 @@ static void growth(int kind, unsigned ni) {
   build_fresh(kind, 0);
   uint64_t r0 = va.reallocs;
   size_t lastcap = 0;
+  /* big runs use two items only, so that each is referenced more than 2^16 times: reference counts are compared with the model at the end */
+  unsigned md = n > 100000 ? 2 : 3;
+  uint64_t occ[NPOOL] = {0};
   for (unsigned i = 0; i < n; i++) {
     bool ok;
     switch (kind) {
-      case CK_INDEF_ARRAY: ok = cbor_array_push(cont, pool[i % 3]); break;
-      case CK_INDEF_MAP: ok = cbor_map_add(cont, (struct cbor_pair){.key = pool[i % 3], .value = pool[(i + 1) % 3]}); break;
-      case CK_BYTES: ok = cbor_bytestring_add_chunk(cont, pool[i % 3]); break;
-      default: ok = cbor_string_add_chunk(cont, pool[i % 3]);
+      case CK_INDEF_ARRAY: ok = cbor_array_push(cont, pool[i % md]); occ[i % md]++; break;
+      case CK_INDEF_MAP: ok = cbor_map_add(cont, (struct cbor_pair){.key = pool[i % md], .value = pool[(i + 1) % md]}); occ[i % md]++; occ[(i + 1) % md]++; break;
+      case CK_BYTES: ok = cbor_bytestring_add_chunk(cont, pool[i % md]); occ[i % md]++; break;
+      default: ok = cbor_string_add_chunk(cont, pool[i % md]); occ[i % md]++;
     }
     vf_cnt(K_GROWTH_INSERTS, 1);
     vf_cnt(VC_EVAL, 1);
@@ -317,8 +320,10 @@ static void growth(int kind, unsigned ni) {
   /* contents */
   for (unsigned i = 0; i < n; i += 97) {
     cbor_item_t* e = kind == CK_INDEF_ARRAY ? cbor_array_handle(cont)[i] : kind == CK_INDEF_MAP ? cbor_map_handle(cont)[i].key : kind == CK_BYTES ? cbor_bytestring_chunks_handle(cont)[i] : cbor_string_chunks_handle(cont)[i];
-    if (e != pool[i % 3]) vf_fail(NULL, "entry %u of the grown %s is wrong", i, KIND_NAME[kind]);
+    if (e != pool[i % md]) vf_fail(NULL, "entry %u of the grown %s is wrong", i, KIND_NAME[kind]);
   }
+  for (int j = 0; j < NPOOL; j++)
+    if (cbor_refcount(pool[j]) != 1 + occ[j]) vf_fail(NULL, "after %u insertions into %s item %d has refcount %zu; it is referenced once by the client and %" PRIu64 " times by the container", n, KIND_NAME[kind], j, cbor_refcount(pool[j]), occ[j]);
   teardown();
   if (va.live) { vf_fail(NULL, "leak after growth run"); va_release_all(); }
 }
